@@ -126,7 +126,12 @@ func sessions(evs []dlg.Event) []session {
 		if e.Ev == "begin" {
 			s.begin = e.T
 		}
-		if e.T > s.end {
+		// The session lasts as long as the tool talks to the device. The
+		// simulator's own "end" event comes later (after it noticed the
+		// closed line and saved its state; tens of milliseconds for a big
+		// configuration), when the tool may long have exited and released
+		// the lock.
+		if e.Ev != "end" && e.T > s.end {
 			s.end = e.T
 		}
 	}
